@@ -154,6 +154,18 @@ func (m *C11Monitor) AfterPass(r *Runner, pv *PassView) error {
 	}
 	// a server-side dry run that did not come back with a success (whatever the error: rejection, 500, 429, 503, timeout, lost
 	// connection) has not passed: no object of that phase may be written in this pass
+	// (a write can only be attributed to a phase if its object is listed in exactly one phase: the same cluster-scoped
+	// object may be listed once with and once without a namespace)
+	keyPhases := map[kubesim.Key]int{}
+	for _, ph := range phases {
+		seen := map[kubesim.Key]bool{}
+		for _, k := range ph.Keys {
+			if !seen[k] {
+				seen[k] = true
+				keyPhases[k]++
+			}
+		}
+	}
 	for _, ph := range phases {
 		if ph.Class != "" && setPass {
 			continue
@@ -173,7 +185,7 @@ func (m *C11Monitor) AfterPass(r *Runner, pv *PassView) error {
 			if c.DryRun && c.Err == "" && c.IsWrite() {
 				dryRunOK[c.Key] = true
 			}
-			if c.IsWrite() && !c.DryRun && c.Verb != "delete" {
+			if c.IsWrite() && !c.DryRun && c.Verb != "delete" && keyPhases[c.Key] == 1 {
 				for _, k := range ph.Keys {
 					if !dryRunOK[k] {
 						r.Labels["c11-write-without-dry-run"] = true
@@ -225,7 +237,14 @@ func (m *C11Monitor) AfterPass(r *Runner, pv *PassView) error {
 			if valid > 0 && badIdx > 0 {
 				r.Labels["c11-mixed-phase-violator-not-first"] = true
 			}
-			if c := written(ph.Keys); c != nil {
+			// only keys listed in this phase alone: a write on an object that an earlier, valid phase lists too belongs there
+			var own []kubesim.Key
+			for _, k := range ph.Keys {
+				if keyPhases[k] == 1 {
+					own = append(own, k)
+				}
+			}
+			if c := written(own); c != nil {
 				return Violf("C11", "write-in-phase-failing-preflight:"+bad,
 					"pass %d: phase %d %q of %s %s contains an object violating preflight (%s) but PKO issued %s on %s of that phase",
 					pv.P.ID, i, ph.Name, ownerKind, ownerName, bad, c.Verb, c.Key)
